@@ -36,7 +36,8 @@ def make_cases(ctx, n):
         for _ in range(6):
             env = {x: value(rng) for x in names}
             if rng.random() < 0.4:
-                env["extra_%d" % rng.randrange(3)] = value(rng)       # unrelated extra fields
+                # unrelated extra fields: never printed, never hashed — any value at all, also ones str() itself refuses
+                env["extra_%d" % rng.randrange(3)] = value(rng) if rng.random() < 0.8 else rng.choice([10 ** 5000, -(10 ** 4400), "x" * 100000])
             envs.append(env)
         cases.append({"prog": prog, "text": text, "envs": envs})
     return cases
@@ -57,6 +58,28 @@ def same_print_pairs(ctx, n):
         ctx.count("same-print-pair")
         if oa != ob or "g" not in oa:
             ctx.violation(f"values printing identically are bucketed differently: {a!r} -> {oa}, {b!r} -> {ob}", {"a": repr(a), "b": repr(b)})
+
+
+def equal_values_in_sequence(ctx):
+    """values that compare (and hash) equal but print differently, one after the other on ONE evaluator, in both orders:
+    each must land where its own printed form lands — whatever was asked before"""
+    from pyab_experiment.experiment_evaluator import ExperimentEvaluator
+    seqs = [(0.0, -0.0), (-0.0, 0.0), (0, 0.0, False, -0.0), (1, 1.0, True), (True, 1, 1.0), (2 ** 53, 2.0 ** 53), (1e16, 10 ** 16), (-1, -1.0),
+            ("1", 1), (float("nan"), float("nan")), (10 ** 22, 1e22), (0.1 + 0.2, 0.3), (255, 255.0, 0xff)]
+    for salt in ("p", "q", "é", "", "zero", "s5", "s6"):
+        ev = ExperimentEvaluator('def e { salt: "%s" splitters: u, v return "a" weighted 1, "b" weighted 1, "c" weighted 1, "d" weighted 1 }' % salt)
+        for seq in seqs:
+            for x in seq:
+                got = common.outcome_of(lambda: ev(u=x, v="k"))
+                env = {"u": x, "v": "k"}
+                h = gen.published_position(salt, ["u", "v"], env)
+                want = {"g": {"s": "abcd"[gen.spec_indices(["1", "1", "1", "1"], h)[0]]}}
+                ctx.case(("eqseq", salt, repr(seq), repr(x)), True)
+                ctx.count("equal-values-in-sequence")
+                if got != want:
+                    ctx.violation(f"splitter value {x!r} as call {list(map(repr, seq))} in turn on one evaluator (salt {salt!r}) gets {json.dumps(got)}; "
+                                  f"its printed form {str(x)!r} lands in {json.dumps(want)}", {"salt": salt, "sequence": [repr(y) for y in seq], "value": repr(x), "impl": got, "spec": want})
+                    break
 
 
 def proba_range(ctx):
@@ -98,6 +121,7 @@ def run(ctx):
                          "pairs of values that print identically")
     progcases.run_cases(ctx, make_cases(ctx, n), want_stages=False)
     same_print_pairs(ctx, 50)
+    equal_values_in_sequence(ctx)
     proba_range(ctx)
     known_family(ctx)
 
